@@ -26,7 +26,7 @@ TRANSFORMS = ["rename", "reorder", "dnf", "cnf", "redundant", "dneg", "negvar", 
 
 def cases(tier, seed):
     rng = random.Random(f"C17/{seed}")
-    nmax, count = (7, 3000) if tier == "quick" else (8, 15000)
+    nmax, count = (7, 2000) if tier == "quick" else (8, 15000)
     cl = [("rand", 4), ("gadget", 4), ("inputs", 3), ("dense-neg", 1), ("rand-wide", 1), ("overlap-maa", 0.2)]
     nets = gen.corpus() + [gen.draw(rng, cl, nmax) for _ in range(count)] + [gen.model_net(f) for f in gen.models_up_to(9 if tier == "quick" else 12)]
     return [{"net": n, "cls": n["cls"], "transforms": rng.sample(TRANSFORMS, 6), "rs": rng.randrange(1 << 30)} for n in nets]
